@@ -443,8 +443,10 @@ class HeaderReaderContract(ReaderContract):
 class ReadRecordContract:
     """read_record(buffer, base_timestamp, base_offset): on Rec(r) relative to the bases returns r
     (offset = base + delta, timestamp = base_ts + delta milliseconds) and consumes exactly Rec(r).
-    ASSUMED here (the body computes through floats); validated by the bounded run, which reports
-    the known finding that the millisecond part of the timestamp is dropped."""
+    Used at the call site in read_batch.  The real body is verified against it by the unit
+    C18/records.readers/read_record/well-formed (checks/c18.py): every clause is discharged except
+    the timestamp one, which is refuted with a replayed counterexample - the known finding that the
+    millisecond part of the timestamp is dropped."""
     name = "read_record"
     is_reader = True
 
